@@ -561,19 +561,8 @@ def compare(case, impl, model):
 # ----------------------------------------------------------------------------- findings
 
 def finding_of(case, impl, why):
-    """Known finding, matched by the specific witness shape:
-    F10e  manifest package, a *zero-length* file token whose combined path path.Clean alters (exempt from the
-          canonical-path test) picks up the data of the sibling its cleaned path names: segment() holds more bytes
-          than the file tokens claim"""
-    f = case.split(" ")
-    if len(f) < 2 or f[0] != "m.seg":
-        return None
-    try:
-        txt = unhex(f[1])
-    except Exception:
-        return None
-    if bool(why) and "partially applied" in why and _has_unclean_name(txt, only_empty=True):
-        return "F10e"
+    """No known (unrepaired) finding is left for C10: F3, F5, F6, F6py, F10a-F10e are fixed in /repo and their witnesses
+    are corpus cases that must pass; every violation is reported."""
     return None
 
 
